@@ -103,6 +103,7 @@ type FuncVerifier struct {
 	seenStack                                    []types.Object
 	rmStack                                      []Term
 	riStack                                      []types.Object
+	rcStack                                      []types.Object // iteration counters of the enclosing map range loops
 	curCall                                      *ast.CallExpr
 	pick                                         func(ast.Expr) ast.Expr
 	clausePick                                   func(ast.Expr) ast.Expr
@@ -2019,7 +2020,7 @@ func (fv *FuncVerifier) checkAssertsBefore(s ast.Stmt, st *State, after bool) {
 	fv.checkAssertsInit()
 	for _, i := range fv.anchorStmts[s] {
 		ab := fv.spec.AssertsBefore[i]
-		if ab.After != after || ab.ClosureReq {
+		if ab.After != after || ab.ClosureReq || ab.FromReq {
 			continue
 		}
 		saved := fv.clauseCtx
